@@ -27,12 +27,12 @@ def refsOfM (cur : Str) : Entries → List Str
     let own : List Str :=
       if k == kInclude || k == kImportPreset then
         match v with
-        | .scalar s => if k == kInclude then [(createReference cur s).resource] else [s]
+        | .scalar s => if k == kInclude then [toResourceId (createReference cur s).resource] else [toResourceId s]
         | _ => []
       else if k == kPatch then
         (parsePatchValue v).1.filterMap fun d =>
           match d with
-          | .ref s => some (createReference cur s).resource
+          | .ref s => some (toResourceId (createReference cur s).resource)
           | .lit _ => none
       else []
     own ++ refsOf cur v ++ refsOfM cur rest
@@ -108,7 +108,7 @@ def keyBinderPrep (root : Tree) : Option (Tree × Chain) :=
   | none => some (root, head0)
 
 /-- one `<sect>/import_preset` of `LegacyPresetConfigPlugin::ReviewLinkOutput` -/
-def pluginPreset (docs : Docs) (rec : Rec) (sect : Str) (p : PS) : PS :=
+def pluginPreset (docs : Docs) (rec : Rec) (name : Str) (sect : Str) (p : PS) : PS :=
   if !p.fl.ok then p else
   match getPath2 p.root sect kImportPreset with
   | .null => p
@@ -120,7 +120,9 @@ def pluginPreset (docs : Docs) (rec : Rec) (sect : Str) (p : PS) : PS :=
     | some (root1, head1) =>
       let s := applyInclude docs rec [] { base := root1, head := head1, fl := p.fl }
         { resource := id, path := sect, optional := false }
-      { root := s.base, fl := s.fl }
+      -- a schema that names itself as its preset reads its own root as the plugins have left it so far (a reference
+      -- cycle through the link step): best effort
+      { root := s.base, fl := if toResourceId id == name then { s.fl with dirty := true } else s.fl }
   | _ => { p with fl := { p.fl with ok := false } }
 
 /-- result for one document -/
@@ -148,7 +150,7 @@ def compileDocCore (docs : Docs) (fuel : Nat) (name : Str) : DocResult :=
     let p0 : PS := { root := r.slot, fl := r.fl }
     let p1 := pluginDefault docs rec_ name p0
     let p2 := if Str.endsWith name kDotSchema then
-        pluginPreset docs rec_ kRecognizer (pluginPreset docs rec_ kPunctuator (pluginPreset docs rec_ kKeyBinder p1))
+        pluginPreset docs rec_ name kRecognizer (pluginPreset docs rec_ name kPunctuator (pluginPreset docs rec_ name kKeyBinder p1))
       else p1
     if !p2.fl.ok then { loaded := true, mem := p2.root, saved := none, fl := p2.fl } else
     let m := stampRoot p2.root
